@@ -2,6 +2,7 @@ package props
 
 import (
 	"fmt"
+	"math/bits"
 
 	c2 "github.com/bolom009/go-clipper2"
 	"pgregory.net/rapid"
@@ -26,9 +27,28 @@ type Family struct {
 	Kind string `json:"kind"` // g1 | rect | oct | lattice | dense
 	R    int64  `json:"r"`    // coordinate radius
 	Step int64  `json:"step"` // lattice step (rect/oct/lattice)
+	// Spread (g1 only): rapid's integer generators favour small magnitudes, which
+	// clusters vertices around the origin; with Spread every drawn value is mapped
+	// through a fixed multiplicative hash onto [-R,R], which gives generic position.
+	Spread bool `json:"spread,omitempty"`
 }
 
-func (f Family) Label() string { return "fam:" + f.Kind }
+// spreadCoord maps v in [-R,R] to a pseudo-uniform value in [-R,R] (pure function).
+func spreadCoord(v, R int64) int64 {
+	u := uint64(v+R) * 0x9E3779B97F4A7C15
+	u ^= u >> 29
+	u *= 0xBF58476D1CE4E5B9
+	u ^= u >> 32
+	hi, _ := bits.Mul64(u, uint64(2*R+1))
+	return int64(hi) - R
+}
+
+func (f Family) Label() string {
+	if f.Spread {
+		return "fam:" + f.Kind + "-spread"
+	}
+	return "fam:" + f.Kind
+}
 
 var g1Radii = []int64{1000, 10000, 1000000, 100000000, maxC}
 
@@ -36,7 +56,7 @@ func drawFamily(t *rapid.T) Family {
 	k := rapid.IntRange(0, 9).Draw(t, "famKind")
 	switch {
 	case k <= 3:
-		return Family{Kind: "g1", R: rapid.SampledFrom(g1Radii).Draw(t, "R")}
+		return Family{Kind: "g1", R: rapid.SampledFrom(g1Radii).Draw(t, "R"), Spread: rapid.IntRange(0, 2).Draw(t, "spread") > 0}
 	case k <= 5:
 		step := rapid.SampledFrom([]int64{1, 2, 10, 1000, 1 << 20, 1 << 25}).Draw(t, "step")
 		return Family{Kind: "rect", R: 8 * step, Step: step}
@@ -133,6 +153,9 @@ func drawClosedPath(t *rapid.T, f Family) Path {
 		p := make(Path, n)
 		for i := range p {
 			p[i] = P{X: rapid.Int64Range(-f.R, f.R).Draw(t, "x"), Y: rapid.Int64Range(-f.R, f.R).Draw(t, "y")}
+			if f.Spread {
+				p[i] = P{X: spreadCoord(p[i].X, f.R), Y: spreadCoord(p[i].Y, f.R)}
+			}
 		}
 		return p
 	}
